@@ -9,7 +9,7 @@
    (the fixed-size topic's files), imported here verbatim. *)
 From Coq Require Import List Arith Bool PrimFloat.
 From Knee Require Import Num NumFloat NpList Model.Mapping Model.Rdp Model.RdpFixed
-  Proofs.ListFacts Proofs.MappingFacts Proofs.SegFacts Proofs.RdpFacts Proofs.RdpFixedFacts Proofs.C01Facts Run.RdpTables.
+  Proofs.ListFacts Proofs.MappingFacts Proofs.SegFacts Proofs.RdpFacts Proofs.RdpFixedFacts Proofs.C01Facts Proofs.RdpCostFacts Model.Metrics Model.LinearFit Model.RdpCost Run.RdpTables.
 Import ListNotations.
 
 (* ---- threshold RDP (rdp.rdp) ---- *)
@@ -130,3 +130,17 @@ Example C01_example :
   C01_code 6 (2 * 6 - 3) 1 (Some ([0; 3; 4; 5], [(0, 3); (3, 1); (4, 1)])) [5] = 3 /\
   C01_code 6 (2 * 6 - 3) 1 (Some ([0; 3; 4; 5], [(0, 2); (3, 0); (4, 0)])) [10] = 5.
 Proof. vm_compute. repeat split. Qed.
+
+(* threshold RDP with the segment cost derived in the model from the points (Model/RdpCost.v; smape, rpd, rmspe, R2 computed
+   from the end-point line and the metric, rmsle an oracle): the instance the correspondence run evaluates *)
+Theorem C01_rdp_code_derived : forall (N : Num) (P : list (@pt N)) (eps : T N) (rmsle_cost : nat -> nat -> T N)
+    (dist : nat -> nat -> list (T N)) (m : metric) (t : T N) (n : nat),
+  Rdp.curved (metric_is_r2 m) t (trivial_cost (metric_is_r2 m)) = false ->
+  (forall l r, l + 3 <= r -> r <= n -> length (dist l r) = r - l) ->
+  2 <= n ->
+  match rdp dist (derived_cost P eps rmsle_cost m) (metric_is_r2 m) t n with
+  | Some (red, rem, vis) => C01_code n (2 * n - 3) 1 (Some (red, rem)) [length vis] = 0
+  | None => False
+  end.
+Proof. exact @rdp_C01_code_derived. Qed.
+Print Assumptions C01_rdp_code_derived.
